@@ -5,16 +5,12 @@ thread), operations separated by ';'.  The generator keeps a small shadow of the
 at the case splits of the model and of the proofs: stack depths at and around every reallocation (1,3,7,15,31,63,127),
 detaching the top / a buried / the bottom / an already detached / a foreign token, one context attached several
 times, tokens detached twice (explicitly and then by their destructor), scopes released in and out of order, keys
-that are prefixes of each other / contain NULs / are empty, batches with duplicate keys, the empty batch (F20)."""
+that are prefixes of each other / contain NULs / are empty, batches with duplicate keys, the empty batch (F20, repaired)."""
 from tools.vlib import hx
 
 ID = "C10"
 LEVEL = "proof"
-DRIVER = {"srcs": ["harness/c10_driver.cc"], "sdk": False,
-          # F20: GetValue calls memcmp(key, nullptr, 0) on the head node left by an empty SetValues; the nonnull
-          # check is switched off so that the semantic consequence (the empty key is shadowed) is observed and
-          # reported as the known finding instead of stopping the whole run at the first such case.
-          "flags": ["-fno-sanitize=nonnull-attribute"]}
+DRIVER = {"srcs": ["harness/c10_driver.cc"], "sdk": False}
 TRIVIAL_TAGS = {"empty"}
 IMPL_TIMEOUT = 300     # a broken unwinding loop in Detach never terminates: report it instead of waiting half an hour
 ASSUMPTIONS = [
@@ -403,10 +399,12 @@ def prog_threads(rng, keys, nthreads, n_ops):
 
 
 def f20_cases(rng):
+    """regression for F20 (fixed in /repo 4bc3189): an empty batch must not shadow the empty key; under the UBSan build
+    the unrepaired GetValue also stops on memcmp(key, nullptr, 0)"""
     out = []
     out.append("SV 0 x i 5 ; SVS 1 0 ; GV 2 x ; HK 2 x ; GV 1 x")
     out.append("NEW1 x s 3 ; SVS 1 0 ; SV 2 x61 b 1 ; HK 3 x ; GV 3 x61 ; GV 3 x")
-    # harmless uses of the empty batch (no binding of the empty key below it, or non-empty keys only)
+    # other uses of the empty batch
     out.append("NEW 0 ; GV 1 x ; HK 1 x ; SV 1 x i 1 ; GV 2 x ; EQ 0 1 ; AT 1 ; CUR")
     out.append("SV 0 x6b i 5 ; SVS 1 0 ; GV 2 x6b ; HK 2 x6b ; SVS 2 0 ; GV 3 x6b ; DUMP x6b x6b00")
     return out
